@@ -17,7 +17,7 @@ from simkit.scenario import Case
 def insitu_case(seed: int, tier: str = "quick") -> dict:
     rng = random.Random(f"c14i/{seed}")
     return {"scenario": "insitu", "seed": seed, "nodes": rng.choice([8, 12, 16] if tier == "quick" else [8, 16, 24, 40]),
-            "minutes": rng.choice([3, 6] if tier == "quick" else [6, 20, 45]), "crash": rng.choice([0, 2, 4]),
+            "minutes": rng.choice([3, 6] if tier == "quick" else [6, 12, 20]), "crash": rng.choice([0, 2, 4]),
             "bucket": rng.choice([8, 8, 2, 3]),
             "knobs": {"lat_min": rng.choice([0.005, 0.05]), "lat_jit": rng.choice([0.0, 0.1, 0.4]), "loss": rng.choice([0.0, 0.05, 0.2]),
                       "timer_jitter": rng.choice([0.0, 0.001])}}
